@@ -22,8 +22,8 @@
             C16-F5 (592b6f8: partition / window frame saved around relational arguments), and the plain-aggregate half
             of F1 (8d54bf7).  Their RQs are kept below as c16_regression_*: none of them is tolerated any more. *)
 From Coq Require Import List NArith Bool.
-From PV Require Import Lib.ListX Model.Rq Model.RqWf Model.Lowerer Model.RqEq Model.LowererTrace Model.LowererVis
-                       Proofs.RqWfProofs Proofs.LowererProofs Proofs.LowererTraceProofs Proofs.LowererVisProofs.
+From PV Require Import Lib.ListX Model.Rq Model.RqWf Model.Lowerer Model.RqEq Model.LowererTrace Model.LowererVis Model.LowererSelect
+                       Proofs.RqWfProofs Proofs.LowererProofs Proofs.LowererTraceProofs Proofs.LowererVisProofs Proofs.LowererSelectProofs.
 Import ListNotations.
 Local Open Scope N_scope.
 
@@ -166,6 +166,33 @@ Theorem strict_trace_replay_gives_wf_rq : forall l q,
   replay_strict_ok l q = true -> (exists s, vrun init (map fst l) = Some s /\ finish s = Some q) /\ rq_wf q = true.
 Proof. exact replay_strict_sound. Qed.
 Print Assumptions strict_trace_replay_gives_wf_rq.
+
+(* ---- push_select / lookup_cid (Model/LowererSelect.v): the closing Select computed from the lineage ---- *)
+
+(* the closing Select push_select computes only names ids that node_mapping holds: the side condition `guard` of
+   OEndTable / OEndInline is a theorem once the frame is computed by the model instead of being read from the trace *)
+Theorem push_select_names_only_mapped_ids : forall s inputs cols f,
+  push_select_m (mapping s) inputs cols = Some f -> incl (map snd f) (mapping_cids (mapping s)) /\ guard s (map snd f) = true.
+Proof. intros s i c f H. split; [eapply push_select_in_mapping; exact H | eapply push_select_guard; exact H]. Qed.
+Print Assumptions push_select_names_only_mapped_ids.
+
+(* every operation with a computed frame is an operation of the machine, so the invariants carry over *)
+Theorem computed_frame_runs_emit_closed_rq : forall lops s q,
+  lrun init lops = Some s -> finish s = Some q -> rq_closed q /\ lookups_total q.
+Proof. exact lrun_emits_closed. Qed.
+Print Assumptions computed_frame_runs_emit_closed_rq.
+
+(* the replay the check evaluates since hooks/push-select.diff: frames computed by the machine, compared with what push_select
+   returned; strict = true additionally proves rq_wf *)
+Theorem computed_frame_replay_sound : forall strict l q, replay_l_ok strict l q = true ->
+  (exists ops s, run init ops = Some s /\ finish s = Some q) /\ (strict = true -> rq_wf q = true).
+Proof. exact replay_l_sound. Qed.
+Print Assumptions computed_frame_replay_sound.
+
+(* toposort (utils/toposort.rs): besides dependencies-first (toposort_decl_before_use above) nothing is listed twice *)
+Theorem toposort_lists_each_table_once : forall dag fuel start l, toposort dag fuel start = Some l -> NoDup l.
+Proof. exact toposort_nodup. Qed.
+Print Assumptions toposort_lists_each_table_once.
 
 (* ---- utils/id_gen.rs: the generators the SQL back end loads from the RQ it is handed (79f4a51) ---- *)
 
@@ -410,3 +437,18 @@ Example c16_finding_f8_let_value_lowered_once :
   rq_diags finding_f8 = [DForeign 2 SSelect 1; DNotVisible 3 SSelect 4]
   /\ replay_ok f8_trace finding_f8 = true /\ replay_strict_verdict f8_trace finding_f8 = 7.
 Proof. vm_compute. auto. Qed.
+
+(* push_select on the state in front of the last operation of F4's run: `t.*` expands to the instance column 0, the three
+   Single columns are looked up through the redirected Compute targets (7 8 9); an unknown input or a column that is not in the
+   instance's HashMap is an error *)
+Example c16_ex_push_select :
+  match run init (firstn 13 f4_ops) with
+  | Some s => (push_select_m (mapping s) [142; 139] [LAll 142 []; LSingle (Some s_c) 134 None; LSingle (Some s_d) 135 None; LSingle (Some s_c) 124 None],
+               push_select_m (mapping s) [139] [LAll 142 []],
+               push_select_m (mapping s) [142; 139] [LSingle (Some s_d) 139 (Some [120])],
+               push_select_m (mapping s) [142; 139] [LSingle (Some s_c) 139 (Some s_c)])
+  | None => (None, None, None, None)
+  end
+  = (Some [(RWildcard, 0); (RSingle (Some s_c), 7); (RSingle (Some s_d), 8); (RSingle (Some s_c), 9)], None, None,
+     Some [(RSingle (Some s_c), 9)]).
+Proof. vm_compute. reflexivity. Qed.
